@@ -872,8 +872,30 @@ impl BackupManager {
             return Err(anyhow!("No new WAL files since parent backup"));
         }
 
+        let mut snapshot_file = None;
         match manifest_layout {
             Some(ManifestLayout::Modern(mut manifest)) => {
+                // The shipped MANIFEST may name a snapshot created after the parent backup
+                // (and WAL compaction may already have removed the segments it covers).
+                // Without that snapshot the restored chain cannot be recovered, so ship it
+                // unless the parent chain already contains exactly this snapshot.
+                if let Some(snapshot_name) = &manifest.latest_snapshot {
+                    let chain_snapshot = self.newest_snapshot_in_chain(&parent_metadata);
+                    if chain_snapshot.as_deref() != Some(snapshot_name.as_str()) {
+                        let snapshot_path = self.data_dir.join(snapshot_name);
+                        anyhow::ensure!(
+                            snapshot_path.exists(),
+                            "MANIFEST references missing snapshot '{}' in {}",
+                            snapshot_name,
+                            self.data_dir.display()
+                        );
+                        entries.push(ArchiveEntry::from_path(
+                            snapshot_name.clone(),
+                            snapshot_path,
+                        ));
+                        snapshot_file = Some(snapshot_name.clone());
+                    }
+                }
                 let discovered_names: BTreeSet<String> =
                     wal_segments.iter().map(|(name, _)| name.clone()).collect();
                 let listed_names: BTreeSet<String> =
@@ -957,7 +979,7 @@ impl BackupManager {
             parent_id: Some(parent_id),
             description,
             max_wal_file_id,
-            snapshot_file: None,
+            snapshot_file,
         };
 
         // Save metadata
@@ -971,6 +993,22 @@ impl BackupManager {
         );
 
         Ok(metadata)
+    }
+
+    /// Snapshot file shipped by the nearest backup in `backup`'s own chain (the backup
+    /// itself, else its parent, and so on), i.e. the snapshot a restore of that chain
+    /// leaves in the data directory last.
+    fn newest_snapshot_in_chain(&self, backup: &BackupMetadata) -> Option<String> {
+        let mut current = backup.clone();
+        loop {
+            if let Some(name) = &current.snapshot_file {
+                return Some(name.clone());
+            }
+            let parent_id = current.parent_id?;
+            let parent_path = self.backup_dir.join(format!("backup_{}.json", parent_id));
+            let contents = fs::read_to_string(parent_path).ok()?;
+            current = serde_json::from_str(&contents).ok()?;
+        }
     }
 
     /// List all backups sorted by timestamp (newest first)
